@@ -267,8 +267,13 @@ def _translate_sample_program(fns) -> list[str]:
     fn = fns["sample_program"]
     b = body_wo_doc(fn)
     W = "sample_program"
+    # optional guard for programs without components/outputs: an empty row per shot, which is what the gather below
+    # yields on empty results as well (concat [] = [], argsort [] = [])
+    guard = "if not results:\n    return jnp.zeros((f_params.shape[0], 0), dtype=jnp.bool_)"
+    if len(b) == 5 and _u(b[2]) == guard:
+        b = b[:2] + b[3:]
     if len(b) != 4:
-        raise Unsupported(f"{W}: {len(b)} statements, expected 4")
+        raise Unsupported(f"{W}: {len(b)} statements, expected 4 (+ optional empty-results guard)")
     _expect(b[0], "results: list[jax.Array] = []", W)
     _expect(b[1], "for component in program.components:\n    samples, key = sample_component(component, f_params, key)\n    results.append(samples)", W)
     _expect(b[2], "combined = jnp.concatenate(results, axis=1)", W)
